@@ -281,6 +281,21 @@ def r3_order(cx):
             ok = len(ys) == 2 and U(ys[0].value) == params(f_)[0] and bool(lp) and U(lp[0].iter) == "chain.from_iterable((%s(c) for c in %s.children))" % (f_.name, params(f_)[0]) and ys[0].lineno < lp[0].lineno
             ok2 = bool(rets) and U(rets[0].value) == "list(chain.from_iterable((%s(n) for n in %s)))" % (f_.name, nodes_p)
             what = "yield n; for i in chain.from_iterable(inner(c) for c in n.children): yield i"
+        elif lp and len(lp) == 1 and len(params(f_)) == 1 and U(lp[0].iter) == "%s.children" % params(f_)[0]:
+            # accumulating form, one node per call: def inner(n): flat.append(n); for c in n.children: inner(c)    ...    for n in nodes: inner(n)
+            l0 = lp[0]
+            np_ = params(f_)[0]
+            stmts = [s_ for s_ in f_.body if not (isinstance(s_, ast.Expr) and isinstance(s_.value, ast.Constant))]
+            aps = [x for x in find_calls(f_.body, attr="append") if [U(a) for a in x.args] == [np_]]
+            rec = [x for x in find_calls(f_.body) if isinstance(x.func, ast.Name) and x.func.id == f_.name]
+            ok = len(stmts) == 2 and len(aps) == 1 and stmt_of(aps[0]) is stmts[0] and isinstance(stmts[0], ast.Expr) and stmts[1] is l0 and len(rec) == 1 and len(l0.body) == 1 \
+                and isinstance(l0.body[0], ast.Expr) and l0.body[0].value is rec[0] and [U(a) for a in rec[0].args] == [U(l0.target)] and not rec[0].keywords and not l0.orelse
+            acc = U(aps[0].func.value) if aps else "?"
+            accdef = [a for a in fl.body if isinstance(a, ast.Assign) and U(a.targets[0]) == acc and U(a.value) in ("[]", "list()")]
+            tl = [s_ for s_ in fl.body if isinstance(s_, ast.For)]
+            ok2 = len(accdef) == 1 and len(assigns_to(fl, acc)) == 1 and len(tl) == 1 and U(tl[0].iter) == nodes_p and len(tl[0].body) == 1 and not tl[0].orelse \
+                and U(tl[0].body[0]) == "%s(%s)" % (f_.name, U(tl[0].target)) and bool(rets) and U(rets[0].value) == acc and tl[0].lineno < rets[0].lineno
+            what = "def inner(n): flat.append(n); for c in n.children: inner(c)   /   for n in nodes: inner(n)"
         elif lp and len(lp) == 1 and len(params(f_)) == 1:
             # accumulating form: for n in level: flat.append(n); walk(n.children)   (append before the recursive call = pre-order)
             l0 = lp[0]
